@@ -98,7 +98,7 @@ fn(FT, 'spider_map_arrow', kind='free', status='P', props=['C12', 'C05'], where_
    ensures=[('C12.spider_map_arrow-wf', 'r.wf()'),
             ('C12.spider_map_arrow-type', 'is_block_image(r.src_type(), fw, f.s.table@) && is_block_image(r.tgt_type(), fw, f.t.table@)')],
    proofs=[('start', '''lemma_seg_wf_sources(fw.sources, fw.values@.len());'''),
-           ('end', '''let obj = choose|obj: spec_fn(O1) -> Seq<O2>| sma_pre(*f, fw, fx, obj);
+           ('before:sx.compose(', '''let obj = choose|obj: spec_fn(O1) -> Seq<O2>| sma_pre(*f, fw, fx, obj);
             let sz = fw.sources.table@; let fv = fw.values@; let n2 = fv.len() as int;
             let es = f.h.s.values.table@; let et = f.h.t.values.table@;
             let ks = kseq(sz, es); let kt = kseq(sz, et);
